@@ -1,6 +1,7 @@
 package rules
 
 import (
+	"go/token"
 	"go/types"
 	"regexp"
 	"strings"
@@ -16,7 +17,7 @@ func init() {
 	Descriptions["C04"] = "Engine E5 (encode side): the BER tree built by every response encoder is obtained by symbolic interpretation of its SSA along every path (callees such as beginResponse / addOptionalResponseChildren / encodeControls / EntryAttribute.encode inlined, functional options resolved) and compared with the RFC 4511 reference grammar: " +
 		"C04-shape (envelope SEQ{INT messageID, APP[tag]{ENUM code, OCTSTR matchedDN, OCTSTR diagnostic}, [0] controls}, entry APP[4]{DN, SEQ of SEQ{name, SET of values}} in slice order), " +
 		"C04-ctor (each New*Response stores r.message.GetID() and exactly the option values / documented defaults into the fields the encoder reads), C04-options (each With* option writes its own field), C04-setter (each setter writes the field its encoder slot reads), " +
-		"C04-write (the bytes written are r.packet().Bytes()), C04-controls (what each control's Encode puts on the wire, rule C14-encode-ref; ber.AppendChild is modelled as copying the child's bytes at the time of the call), C04-newinteger (every ber.NewInteger receives a dynamic type the library accepts). Decides which value ends up in which slot of which tag for all values; BER length/identifier encoding is the library's."
+		"C04-write (the bytes written are r.packet().Bytes()), C04-controls (what each control's Encode puts on the wire, rule C14-encode-ref; ber.AppendChild is modelled as copying the child's bytes at the time of the call), C04-newinteger (every ber.NewInteger receives a dynamic type the library accepts). Decides which value ends up in which slot of which tag for all values; BER length/identifier encoding is the library's. C04-setter also requires the store on every path of the setter (no argument value turns it into a no-op). C04-writer-unlocked: every Lock of the connection's writer mutex is released on every path."
 }
 
 var typeAnnot = regexp.MustCompile(`:[a-z0-9]+`)
@@ -320,6 +321,21 @@ func checkC04(c *Ctx) {
 			}
 		})
 		R.Check(ok && stores == 1, "C04-setter", s.fn+" writes "+s.field, c.P.Pos(f.Pos()), s.field+" = "+s.want, "the setter does not store its argument into "+s.typ+"."+s.field)
+		if ok && stores == 1 {
+			// ... for every argument: no return is reached without the store (a nil receiver aside)
+			known := map[string]bool{}
+			an.Instrs(f, func(in ssa.Instruction) {
+				if iff, isIf := in.(*ssa.If); isIf {
+					if x, trueMeansNil, isNC := an.NilCheck(iff.Cond); isNC && an.Strip(x) == ssa.Value(f.Params[0]) {
+						key, neg := an.CondKey(iff.Cond)
+						known[key] = (!trueMeansNil) != neg
+					}
+				}
+			})
+			isStore := func(in ssa.Instruction) bool { _, isSt := in.(*ssa.Store); return isSt }
+			w := an.SearchKnown(an.Entry(f), an.IsReturn, isStore, known)
+			R.Check(w == nil, "C04-setter", s.fn+" writes "+s.field+" for every argument", c.P.Pos(f.Pos()), "no return is reached without the store", "the setter returns without storing its argument on some path ("+c.trail(w)+"): what the handler set last is not what is encoded")
+		}
 	}
 	if f := c.fn(G, "(*SearchResponseEntry).AddAttribute"); f != nil {
 		ok := false
@@ -373,6 +389,64 @@ func checkC04(c *Ctx) {
 			}
 		}
 		R.Floor("C04-write-flushed", 2)
+	}
+
+	// ---- C04-writer-unlocked: "arrives at the client": every Write of a connection takes the connection's writer lock
+	// first, so a path that leaves that lock held (e.g. an early return between Lock and Unlock) makes every later
+	// response of the connection block for ever instead of arriving. The lock is the sync.Mutex whose address the
+	// connection hands to newResponseWriter, and the *sync.Mutex field of ResponseWriter that receives it.
+	{
+		isWriterLock := func(mu ssa.Value) bool {
+			mu = an.Strip(mu)
+			if fa, ok := mu.(*ssa.FieldAddr); ok {
+				// &c.<field> of conn, the field given to newResponseWriter
+				if nrw := c.fn(G, "newResponseWriter"); nrw != nil {
+					for _, f := range c.shippedFuncs(G) {
+						for _, ci := range an.Calls(f) {
+							if an.StaticCallee(ci.Common()) == nrw && len(ci.Common().Args) > 1 {
+								if la, ok := an.Strip(ci.Common().Args[1]).(*ssa.FieldAddr); ok && types.Identical(la.X.Type(), fa.X.Type()) && la.Field == fa.Field {
+									return true
+								}
+							}
+						}
+					}
+				}
+				return false
+			}
+			if ld, ok := mu.(*ssa.UnOp); ok && ld.Op == token.MUL {
+				if fa, ok := ld.X.(*ssa.FieldAddr); ok && an.TypeIs(fa.X.Type(), G, "ResponseWriter") {
+					if pt, ok := fa.Type().(*types.Pointer); ok {
+						if ppt, ok := pt.Elem().(*types.Pointer); ok && an.TypeIs(ppt.Elem(), "sync", "Mutex") {
+							return true
+						}
+					}
+				}
+			}
+			return false
+		}
+		n := 0
+		for _, f := range c.shippedFuncs(G) {
+			for _, ci := range an.Calls(f) {
+				k, mu := an.LockOp(ci.Common())
+				if k != "Lock" || !isCall(ci) || !isWriterLock(mu) {
+					continue
+				}
+				n++
+				mp := an.MutexPath(mu)
+				unlock := func(in ssa.Instruction) bool {
+					c2, ok := in.(ssa.CallInstruction)
+					if !ok {
+						return false
+					}
+					k2, m2 := an.LockOp(c2.Common())
+					return k2 == "Unlock" && an.MutexPath(m2) == mp && !isGo(c2)
+				}
+				w := an.Search(an.After(ci), an.IsReturn, unlock)
+				R.Check(w == nil, "C04-writer-unlocked", fname(f)+": the connection's writer lock is released on every path", c.pos(ci), "every path from the Lock to a return passes Unlock (or its defer)",
+					"the connection's writer lock ("+mp+") stays held on some path ("+c.trail(w)+"): every later ResponseWriter.Write on the connection blocks for ever, so no further response arrives")
+			}
+		}
+		R.Floor("C04-writer-unlocked", 1)
 	}
 
 	// ---- C04-controls: "controls are exactly those the handler set": the response tree carries controls[*].Encode();
